@@ -36,6 +36,13 @@ func (eng *Engine) inModule(f *ssa.Function) bool {
 		if f != nil && f.Origin() != nil {
 			return eng.inModule(f.Origin())
 		}
+		// synthetic wrappers (pointer-receiver wrapper of a value method, bound-method thunks)
+		// carry no package; they belong to the package of the method they wrap
+		if f != nil {
+			if o := f.Object(); o != nil && o.Pkg() != nil {
+				return strings.HasPrefix(o.Pkg().Path(), eng.modPath)
+			}
+		}
 		return false
 	}
 	return strings.HasPrefix(f.Pkg.Pkg.Path(), eng.modPath)
@@ -256,6 +263,21 @@ func (fi *FrameInfo) instrEffects(fr *Frame, in ssa.Instruction, ws map[string]b
 
 func (fi *FrameInfo) callEffects(fr *Frame, c *ssa.CallCommon, ws map[string]bool, callees *[]*ssa.Function) {
 	if c.IsInvoke() {
+		if tc := fi.eng.typeContract(c.Value.Type(), c.Method.Name()); tc != nil && tc.hasAssgn {
+			exprItem := false
+			for _, item := range tc.assigns {
+				if strings.HasPrefix(item, "class ") {
+					ws[strings.TrimSpace(item[6:])] = true
+				} else if fi.eng.contracts.ghosts[item] != nil {
+					ws["ghost:"+item] = true
+				} else {
+					exprItem = true // a location expression: fall back to the implementations
+				}
+			}
+			if !tc.inferRest && !exprItem {
+				return
+			}
+		}
 		impls := fi.eng.implementations(c.Value.Type(), c.Method)
 		if len(impls) == 0 {
 			fi.externalWrites(c, ws)
@@ -353,7 +375,9 @@ func (fi *FrameInfo) computeDirect(f *ssa.Function) {
 	}
 	if ct := fi.eng.contractOf(f); ct != nil && ct.hasAssgn {
 		fi.eng.assignClasses(f, ct, ws)
-		return
+		if !ct.inferRest {
+			return
+		}
 	}
 	if len(f.Blocks) == 0 || !fi.eng.inModule(f) {
 		if isBigMethod(f) {
@@ -431,6 +455,11 @@ func (fi *FrameInfo) of(f *ssa.Function, c *ssa.CallCommon) map[string]bool {
 		fi.trans[g] = cur[g]
 	}
 	return fi.trans[f]
+}
+
+// bodyOf is the inferred write set of f (its contract's explicit assigns included).
+func (fi *FrameInfo) bodyOf(f *ssa.Function) map[string]bool {
+	return fi.of(f, nil)
 }
 
 func isBigMethod(f *ssa.Function) bool {
